@@ -33,13 +33,15 @@ def l1_stage(chk, name, constants, **kw):
 
 
 def spec_stage(chk, name, module, consts, view, emit, invariants, properties, exe, mode="inline", keep=None, sample=None,
-               simulate=None, depth=None, workers=vlib.NPROC, timeout=3000, fs=True, coverage=False, chunk=400):
+               simulate=None, depth=None, workers=vlib.NPROC, timeout=3000, fs=True, coverage=False, chunk=400, emit_invariants=(),
+               spec=None):
     """One exhaustive (or simulated) TLC run that checks the design-level properties and emits every behaviour,
     followed by the replay of the (maximal, filtered, sampled) behaviours in the real code."""
     wd = vlib.scratch("st")
     try:
         cfg = os.path.join(wd, name + ".cfg")
-        vlib.write_cfg(cfg, consts, view=view, action_constraint=emit, invariants=invariants, properties=properties)
+        vlib.write_cfg(cfg, consts, view=view, action_constraint=emit, invariants=tuple(emit_invariants) + tuple(invariants),
+                       properties=properties, spec=spec)
         emitted = os.path.join(wd, "emitted.ndjson")
         r = vlib.run_tlc(module, cfg, wd, workers=(1 if simulate else workers), simulate=simulate, depth=depth,
                          tseed=vlib.seed(), timeout=timeout, emit_to=emitted, coverage=coverage)
@@ -61,7 +63,7 @@ def spec_stage(chk, name, module, consts, view, emit, invariants, properties, ex
             if len(chk.violations) + len(chk.known) == before:
                 raise Inconclusive("TLC reports a design-level violation in stage %s that the real code does not show: "
                                    "the model misrepresents the code (counterexample kept in the evidence file)" % name)
-            vlib.write_cfg(cfg, consts, view=view, action_constraint=emit, invariants=(), properties=())
+            vlib.write_cfg(cfg, consts, view=view, action_constraint=emit, invariants=tuple(emit_invariants), properties=())
             r = vlib.run_tlc(module, cfg, wd, workers=(1 if simulate else workers), simulate=simulate, depth=depth,
                              tseed=vlib.seed(), timeout=timeout, emit_to=emitted)
             st = chk.add_tlc(name + ":tlc-emit-only", r, consts)
@@ -475,7 +477,7 @@ def programs_c06():
     return progs
 
 
-def conc_check(chk, programs, dfs_runs, rnd_runs, preempt):
+def conc_check(chk, programs, dfs_runs, rnd_runs, preempt, family_owner=None):
     """Executes the programs under the controlled scheduler (all schedules up to the preemption bound, capped, plus
     seeded random ones), then lets TLC decide whether every recorded history is linearizable w.r.t. the promise."""
     execs = vlib.run_conc(programs, mode="dfs", runs=dfs_runs, preempt=preempt)
@@ -485,12 +487,16 @@ def conc_check(chk, programs, dfs_runs, rnd_runs, preempt):
     for e in execs:
         by_outcome[e["outcome"]] = by_outcome.get(e["outcome"], 0) + 1
         if e["outcome"] in ("deadlock", "panic", "crash"):
-            own = "C06"
+            own = family_owner or "C06"
             desc = "%s of the real code in program %s: %s" % (e["outcome"], e.get("program"), (e.get("detail") or "")[:800])
             if own == chk.prop:
                 chk.violation(desc, {"execution": {k: e.get(k) for k in ("program", "mode", "seed", "decisions", "gates", "detail")}})
             else:
                 chk.out_of_scope[own] = chk.out_of_scope.get(own, 0) + 1
+            continue
+        if e["outcome"] == "stuck" and "not parked" in (e.get("detail") or ""):
+            # the execution did not follow the enumerated prefix (a goroutine of the code showed up at another moment)
+            by_outcome["diverged"] = by_outcome.get("diverged", 0) + 1
             continue
         if e["outcome"] != "ok":
             raise Inconclusive("execution of %s ended as %s: %s" % (e.get("program"), e["outcome"], e.get("detail")))
@@ -516,6 +522,8 @@ def conc_check(chk, programs, dfs_runs, rnd_runs, preempt):
             own = "C08"
         else:
             own = "C06"
+        if family_owner:
+            own = family_owner
         sig = known_schedule(e, own)
         desc = "history of program %s (schedule %s) is not linearizable w.r.t. the promise at event %d: %s %s t=%s k=%s returned %s %s" % (
             e["program"], e["mode"], ei, c.get("a"), c.get("op"), c.get("t"), c.get("k"), ev.get("res"), ev.get("vs") or ev.get("ks") or "")
@@ -655,6 +663,54 @@ def c08(chk):
     conc_check(chk, programs_c08(), 60 if quick else 800, 12 if quick else 150, 2 if quick else 3)
 
 
+def rw_variant():
+    fixed = [f for f in vlib.known_findings().get("fixed", []) if f.get("signature") == "asyncrw-if-and-unlocked-close"]
+    return "repaired" if fixed else "asfound"
+
+
+def programs_c12():
+    progs = []
+    splits = ([0], [1], [3, 0, 4], [0, 5], [5, 0], [32767, 1, 1], [32768], [32769, 0, 1], [1, 32768, 0, 2], [0, 0], [65536, 1], [2048, 0, 2049])
+    for i, w in enumerate(splits):
+        tg = Tags()
+        setup = [O("set", 0, "k1", tg.next())]
+        cr = dict(O("create", 0, "k1", tg.next()), w=w)
+        progs.append({"name": "c12_create_%d" % i, "family": "C12", "keys": ["k1", "k2"], "setup": setup,
+                      "actors": [{"name": "A", "ops": [cr, O("get", 0, "k1")]}]})
+        tg2 = Tags()
+        setup2 = [O("set", 0, "k1", tg2.next()), O("begin", 1, l="RC")]
+        cr2 = dict(O("create", 1, "k2", tg2.next()), w=w)
+        progs.append({"name": "c12_create_tx_%d" % i, "family": "C12", "keys": ["k1", "k2"], "setup": setup2,
+                      "actors": [{"name": "A", "ops": [cr2, O("get", 1, "k2"), O("commit", 1)]}, {"name": "B", "ops": [O("get", 0, "k1")]}]})
+    return progs
+
+
+def c12(chk):
+    quick = chk.tier == "quick"
+    var = rw_variant()
+    # design + component conformance: every schedule of writer and storing goroutine for the write patterns of AsyncRW.tla
+    spec_stage(chk, "pipe_schedules", "AsyncRW.tla", dict(PSet=set(range(1, 17)), CapSet={1, 2, 4} if not quick else {2, 4}, Variant=var),
+               view=None, emit=None, emit_invariants=("EmitEnd",), invariants=("XConcatenation", "XNotStuck"), properties=(),
+               exe="rwpipe", fs=False, chunk=300, sample=4000 if quick else None)
+    if not quick:
+        # liveness: Close returns on every fair behaviour
+        wd = vlib.scratch("rwl")
+        try:
+            consts = dict(PSet={2, 6, 7, 10, 11, 13}, CapSet={2}, Variant=var)
+            cfg = os.path.join(wd, "live.cfg")
+            vlib.write_cfg(cfg, consts, spec="Spec", properties=("CloseReturns",))
+            r = vlib.run_tlc("AsyncRW.tla", cfg, wd, timeout=1500)
+            st = chk.add_tlc("pipe_liveness", r, consts)
+            if r.violation:
+                st["tlc_violation"] = r.violation[:1500]
+                chk.extra.setdefault("design_counterexamples", []).append({"stage": "pipe_liveness", "text": r.violation[:3000]})
+        finally:
+            shutil.rmtree(wd, ignore_errors=True)
+    # end to end: inline Create with real sizes (0, 1, copy-buffer multiples +-1) under controlled schedules
+    conc_check(chk, programs_c12(), 30 if quick else 400, 10 if quick else 120, 2, family_owner="C12")
+    chk.assumptions += ["the component replay uses 1..4-byte buffers; the end-to-end stage uses the real 32 KiB copy buffer"]
+
+
 def c17(chk):
     quick = chk.tier == "quick"
     # design: every interleaving of write / delete / reopen with a limit of 2 (the code clamps the limit to >= 100)
@@ -694,7 +750,7 @@ def c11(chk):
              mode="both", simulate=40 if quick else 800, depth=30)
 
 
-PLANS = {"C06": c06, "C07": c07, "C08": c08, "C17": c17, "C18": c18, "C19": c19, "C20": c20, "C05": c05, "C11": c11, "C01": c01, "C02": c02, "C03": c03, "C09": c09, "C13": c13, "C14": c14}
+PLANS = {"C12": c12, "C06": c06, "C07": c07, "C08": c08, "C17": c17, "C18": c18, "C19": c19, "C20": c20, "C05": c05, "C11": c11, "C01": c01, "C02": c02, "C03": c03, "C09": c09, "C13": c13, "C14": c14}
 
 
 def main():
